@@ -616,10 +616,15 @@ def check_call_args(facts, run, prop, table, cfg):
                 if tgt is None:
                     continue
                 ok = True
-                for pname, want in ent["params"].items():
+                pi = (ent.get("params_idx") or {}).get(norm_name(tgt["name"]))
+                plist = [(int(k_) - 1, v_, k_) for k_, v_ in pi.items()] if pi else None
+                for pname, want in (ent["params"].items() if plist is None else [(x[2], x[1]) for x in plist]):
                     idx = None
+                    if plist is not None:
+                        idx = int(pname) - 1
+                        pname = tgt["locals"][idx + 1][1] if idx + 1 < len(tgt["locals"]) else pname
                     for i in range(1, tgt["argc"] + 1):
-                        if tgt["locals"][i][1] == pname:
+                        if plist is None and tgt["locals"][i][1] == pname:
                             idx = i - 1
                     if idx is None or idx >= len(t[2]):
                         ok = False
@@ -793,8 +798,8 @@ def check_nonce_input(facts, run, prop, table, cfg):
             run.oblige(ok=False)
             run.add(Finding("G0", ent["fn"], "gates: anchor function %s not found" % ent["fn"], config=cfg, prop=prop))
         for fn in matched:
-            hp = [i for i in range(1, fn["argc"] + 1) if fn["locals"][i][1] == ent["param"]]
-            if not hp:
+            hp = [ent["param_idx"]] if ent.get("param_idx") else [i for i in range(1, fn["argc"] + 1) if fn["locals"][i][1] == ent["param"]]
+            if not hp or hp[0] > fn["argc"]:
                 continue
             eng = _NonceEngine(facts, _NoncePolicy())
             eng.summary(fn)
@@ -812,7 +817,7 @@ def check_nonce_input(facts, run, prop, table, cfg):
                 if not ok:
                     run.add(Finding("G13", "%s|raw" % norm_name(fn["name"]),
                                     "gates G13: in %s (%s:%s) bytes of the hash parameter `%s` are fed to the nonce derivation without "
-                                    "passing through a reducing scalar decoder -- %s" % (fn["name"], fn["file"], line, ent["param"], ent["why"]),
+                                    "passing through a reducing scalar decoder -- %s" % (fn["name"], fn["file"], line, fn["locals"][hp[0]][1] or ent["param"], ent["why"]),
                                     config=cfg, site="%s:%s" % (fn["file"], line), prop=prop))
             run.oblige(ok=seen_red)
             if not seen_red:
